@@ -287,17 +287,26 @@ PROPS = {
             {"name": "life", "n_quick": 2500, "n_thorough": 60000, "oracle": False,
              "rule": "session + one sender link: begin, attach, send, detach, close, drop and cancellation of each call, end, end_with_error against a "
                      "protocol-abiding scripted peer (begin, attach, flow, disposition, detach closed/not closed/with error, end with/without error); "
-                     "the generator tracks which handle is free so that few events are no-ops; direct oracle only (no model for links)"},
+                     "the generator tracks which handle is free so that few events are no-ops; direct oracle only"},
+            {"name": "lifel", "n_quick": 600, "n_thorough": 20000, "model": "coq/Link/LinkLife.v",
+             "rule": "one sender link on an open session: attach, send (with / without credit), detach, close, drop against a peer's attach, flow, accepting "
+                     "disposition, detach not closed / closed / closed with error; every legal script up to length 5 (thorough 7) plus random ones of length 3..12; "
+                     "the generator simulates what is in flight and leaves out the three combinations whose outcome depends on the order in which tokio::select! "
+                     "polls the link's two channels (recorded as known findings c13-second-detach / c13-transfer-after-remote-detach)"},
         ],
         "rule": "lifem: a case is one script run against the real session engine (client, scripted peer, paused clock, one event per barrier) and through the "
-                "extracted Coq step function; compared per step: begin/end frames (with error or not), results of begin()/end()/on_end(); life: the trace "
+                "extracted Coq step function; compared per step: begin/end frames (with error or not), results of begin()/end()/on_end(); lifel: the same for one "
+                "sender link (attach/transfer/detach frames with the closed flag, results of attach/send/detach/close); life: the trace "
                 "(all frames as tokens, all API results) is checked by the direct oracle: one begin, at most one end, nothing after the end; at most one detach "
                 "per attach and nothing for the handle afterwards; a peer end answered; a peer detach answered in kind; the peer's error reported; the "
                 "connection never torn down; non-trivial = attach succeeded and a detach/close/end completed",
-        "trusted": ["model scope: see the header of coq/Session/SessLife.v (session lifecycle only)", "scripted peer and barrier as for C12"],
+        "trusted": ["model scope: see the headers of coq/Session/SessLife.v (session lifecycle) and coq/Link/LinkLife.v (sender link: Sender::{attach, send, detach, close, drop}, "
+                    "SenderLink detach handling, shared_inner::{detach_with_error, close_with_error, reattach_and_then_close})", "scripted peer and barrier as for C12"],
         "assumptions": ["the peer stays within the protocol (violations are C15)", "one stimulus per quiescence barrier"],
-        "partial": ["the LINK clauses (attach/detach handshakes, answer in kind, flushing) are not modelled in Coq: they are decided on the implementation by the "
-                    "direct oracle over generated scripts only; three known findings concern them"],
+        "partial": ["the link model covers the SENDING link; the receiving link's lifecycle and the combination with session end are decided by the direct oracle over "
+                    "generated scripts only",
+                    "the link clauses 'at most one detach per attach' and 'answer in kind' are false of the code in named corner cases: proved with the exact exception, "
+                    "refutation witnesses in Props/C13.v, recorded as known findings"],
     },
     "C19": {
         "class_prefixes": ["c19-", "harness-crash"],
